@@ -48,7 +48,12 @@ def judge_solution(spec, scale, pr, res, out, sig, check_closure=True):
     if h.shape != (L, n, n) or C.shape != (L, n, n):
         out.fail(sig + 'array-shapes', 'stored arrays have shapes %s / %s' % (h.shape, C.shape))
         return {}
-    if np.all(np.isfinite(res.x)) and np.all(np.isfinite(res.fun)) and not (np.all(np.isfinite(h)) and np.all(np.isfinite(C))):
+    if not (np.all(np.isfinite(res.x)) and np.all(np.isfinite(res.fun))):
+        out.fail(sig + 'success-reported-with-non-finite-residual', 'solve (method %s) reports success although the residual / x it returns contain NaN or inf '
+                 '(%d non-finite residual entries): nothing on the object can satisfy the equations "to the reported residual"' % (
+                     spec.get('method'), int(np.count_nonzero(~np.isfinite(res.fun)))))
+        return {}
+    if not (np.all(np.isfinite(h)) and np.all(np.isfinite(C))):
         out.fail(sig + 'reported-residual-not-of-stored-arrays', 'solve reports success with finite x and residual (max|fun|=%.3g) but the stored '
                  'totalCorr/directCorr contain NaN/inf: they are not those of the returned x' % float(np.max(np.abs(res.fun))))
         return {}
@@ -205,7 +210,7 @@ class Ladder(Sub):
 class DenseMethods(Sub):
     name = 'dense-methods'
     doc = 'hybr / lm (dense Jacobian) on 128-point grids, 1-2 types'
-    budget = {'quick': 24, 'thorough': 640}
+    budget = {'quick': 16, 'thorough': 640}
     shrink = {'quick': False, 'thorough': False}
 
     def strategy(self, tier):
